@@ -25,6 +25,7 @@ func init() {
 }
 
 type opEntry struct {
+	memSize      string
 	execute      string
 	gas          int64
 	hasGas       bool
@@ -80,6 +81,10 @@ func evalJumpTable(w *World, name string, depth int) map[int64]*opEntry {
 					if id, ok := v.Fun.(*ast.Ident); ok {
 						e.execute = "call:" + id.Name
 					}
+				}
+			case "memorySize":
+				if v, ok := kv.Value.(*ast.Ident); ok {
+					e.memSize = v.Name
 				}
 			case "constantGas":
 				if n, ok := constInt(kv.Value); ok {
@@ -159,6 +164,10 @@ func evalJumpTable(w *World, name string, depth int) map[int64]*opEntry {
 								case "execute":
 									if v, ok := s.Rhs[0].(*ast.Ident); ok {
 										e.execute = v.Name
+									}
+								case "memorySize":
+									if v, ok := s.Rhs[0].(*ast.Ident); ok {
+										e.memSize = v.Name
 									}
 								case "writes", "valid":
 									if v, ok := s.Rhs[0].(*ast.Ident); ok {
@@ -414,6 +423,178 @@ func runC15(c *Ctx) {
 		ok, why := checkU256(w, fn)
 		c.sites++
 		c.Check(fname(fn)+"#reduced-mod-2^256", fn.Pos(), ok, ifelse(ok, "range-escaping results are reduced with math.U256 (or by a following modulo)", why))
+	}
+
+	// ------------------------------------------------------------ X5
+	c.Rule("C15.X5", "GATE", "a 256-bit stack word is narrowed to a machine integer (Uint64/Int64) in an opcode handler only where its width was decided first: under a dominating branch on a wide test of the same word (Cmp, BitLen, IsUint64, validJumpdest), or at a stack position covered by the memory-size function of every jump-table entry that runs the handler (the interpreter rejects 64-bit overflow of those operands before executing)")
+	c.Min(30)
+	memPos := map[string]map[int]bool{} // handler -> stack positions covered by all its memory-size functions
+	for _, e := range table {
+		if e.execute == "" || strings.HasPrefix(e.execute, "call:") {
+			continue
+		}
+		pos := map[int]bool{}
+		if e.memSize != "" {
+			if mf := w.FnOpt("core/vm", "", e.memSize); mf != nil {
+				for _, ci := range callInstrs(mf) {
+					if n, k, ok := stackOp(ci); ok && n == "Back" && k >= 0 {
+						pos[k] = true
+					}
+				}
+			}
+		}
+		if prev, has := memPos[e.execute]; has {
+			for k := range prev {
+				if !pos[k] {
+					delete(prev, k)
+				}
+			}
+		} else {
+			memPos[e.execute] = pos
+		}
+	}
+	// the jump-destination test the JUMP handlers rely on decides the width itself
+	{
+		has := w.Fn("core/vm", "destinations", "has")
+		c.sawFunc(fname(has))
+		c.sites++
+		okHas := false
+		for _, ci := range callInstrs(has) {
+			if o := calleeObj(ci); o != nil && o.Name() == "BitLen" && callRecv(ci) == ssa.Value(has.Params[len(has.Params)-1]) {
+				// every block that indexes the code with the narrowed destination is reached only past the BitLen test failing
+				for _, b := range has.Blocks {
+					for _, in := range b.Instrs {
+						if _, isIdx := in.(*ssa.IndexAddr); isIdx {
+							for _, a := range atomsOf(factsAt(b)) {
+								if a.Kind == "cmp" && stripConv(a.X) == ci.Value() {
+									op := a.Op
+									if !a.Truth {
+										op = negateCmp(op)
+									}
+									if n, isC := constInt(a.Y); isC && n <= 64 && (op == token.LSS || op == token.LEQ) {
+										okHas = true
+									}
+								}
+							}
+						}
+					}
+				}
+			}
+		}
+		c.Check(fname(has)+"#bounds-destination-width", has.Pos(), okHas, ifelse(okHas, "the code is indexed with the narrowed destination only under dest.BitLen() < 63", "destinations.has no longer rejects destinations wider than 63 bits before narrowing them: JUMP to 2^64+k lands on k"))
+	}
+	for _, h := range hnames {
+		fn := w.FnOpt("core/vm", "", h)
+		if fn == nil {
+			continue
+		}
+		ai := bigIntAliases(fn)
+		// stack position of each pop / peek / Back root
+		position := func(root ssa.Value) (int, bool) {
+			rc, ok := root.(*ssa.Call)
+			if !ok {
+				return 0, false
+			}
+			n, k, ok := stackOp(rc)
+			if !ok {
+				return 0, false
+			}
+			before := 0
+			for _, ci := range callInstrs(fn) {
+				if ci == ssa.CallInstruction(rc) {
+					continue
+				}
+				if n2, _, ok2 := stackOp(ci); ok2 && n2 == "pop" {
+					if instrDominates(ci, rc) {
+						before++
+					} else if ci.Block() != rc.Block() && !rc.Block().Dominates(ci.Block()) && !ci.Block().Dominates(rc.Block()) {
+						continue
+					}
+				}
+			}
+			switch n {
+			case "pop", "peek":
+				return before, true
+			case "Back":
+				if k < 0 {
+					return 0, false
+				}
+				return before + k, true
+			}
+			return 0, false
+		}
+		for _, ci := range callInstrs(fn) {
+			o := calleeObj(ci)
+			if o == nil || recvName(o) != "Int" || o.Pkg() == nil || o.Pkg().Path() != "math/big" || (o.Name() != "Uint64" && o.Name() != "Int64") {
+				continue
+			}
+			recv := callRecv(ci)
+			root := ai.class(recv)
+			kind := originKind(root)
+			if kind != "popped" && kind != "onstack" {
+				continue // not a stack word (block number, fresh sums are judged at their operands)
+			}
+			c.sites++
+			key := fmt.Sprintf("%s#%s@%s-width-decided", fname(fn), o.Name(), siteOrdinal(fn, ci, ""))
+			// A: dominating wide test of the same word
+			wide := false
+			for _, f := range factsAtInstr(ci) {
+				backward(f.Cond, func(v ssa.Value) bool {
+					cc, ok := v.(*ssa.Call)
+					if !ok {
+						return true
+					}
+					co := calleeObj(cc)
+					if co == nil {
+						return false
+					}
+					switch co.Name() {
+					case "Cmp", "BitLen", "IsUint64", "IsInt64", "validJumpdest", "has":
+						var tested []ssa.Value
+						if r := callRecv(cc); r != nil && isBigIntPtr(r.Type()) {
+							tested = append(tested, r)
+						}
+						for _, a := range callArgs(cc) {
+							if isBigIntPtr(a.Type()) {
+								tested = append(tested, a)
+							}
+						}
+						for _, tv := range tested {
+							if ai.class(tv) == root {
+								wide = true
+							}
+							// a wide test of a sum of non-negative words bounds each summand
+							for _, ci2 := range callInstrs(fn) {
+								if o2 := calleeObj(ci2); o2 != nil && o2.Name() == "Add" && recvName(o2) == "Int" && ci2.Value() != nil && ai.class(ci2.Value()) == ai.class(tv) && instrDominates(ci2, cc) {
+									for _, a := range callArgs(ci2) {
+										if ai.class(a) == root {
+											wide = true
+										}
+									}
+								}
+							}
+						}
+					}
+					return false
+				})
+			}
+			if wide {
+				c.Pass(key, ci.Pos(), "narrowed under a dominating wide test of the same word")
+				continue
+			}
+			// B: memory operand
+			if p, ok := position(root); ok && memPos[h][p] {
+				c.Pass(key, ci.Pos(), fmt.Sprintf("stack position %d is covered by the memory-size function of every entry running %s", p, h))
+				continue
+			}
+			if r, ok := map[string]string{
+				"core/vm.opMstore8#Int64@1-width-decided": "MSTORE8 stores the word modulo 256: only the low byte of the narrowed value is used (val & 0xff)",
+			}[key]; ok {
+				c.Pass(key, ci.Pos(), "tabled: "+r)
+				continue
+			}
+			c.Fail(key, ci.Pos(), "a 256-bit stack word is cut to 64 bits without its width having been decided: an operand of 2^64 or more behaves like its low 64 bits (BYTE(2^64, x) returns byte 0 instead of 0, a shift by 2^64 shifts by 0)")
+		}
 	}
 }
 
